@@ -251,6 +251,8 @@ theorem handlesOf_mem (s : State) : ∀ (srcs : List Nat) (hs : List Handle), ha
 theorem inv_opExportFfi (s : State) (srcs : List Nat) (d : Nat) (h : Inv s) : Inv (opExportFfi s srcs d).1 := by
   unfold opExportFfi; split
   · rename_i hs hh hd
+    split
+    case isFalse => exact h
     simp only
     refine inv_holdAll _ hs _ (inv_exportFresh s d h hd) ?_ ?_
     · show 1 ≤ ownRc (pushOwner s { rc := 1, drops := 0, held := [] }) s.owners.length
